@@ -33,6 +33,7 @@ import (
 	eth2p0 "github.com/attestantio/go-eth2-client/spec/phase0"
 
 	"github.com/obolnetwork/charon/app/eth2wrap"
+	"github.com/obolnetwork/charon/app/featureset"
 	"github.com/obolnetwork/charon/app/log"
 	"github.com/obolnetwork/charon/core"
 	"github.com/obolnetwork/charon/core/scheduler"
@@ -157,6 +158,8 @@ type world struct {
 
 	ticks       []tickRec
 	trigs       []trigRec
+	fetches     []trigRec // fetch-only calls caused by head events (feature flags fetch_att_on_block*)
+	trims       []time.Time // reorg events delivered while sse_reorg_duties is enabled: resolved duties are dropped
 	ress        []resRec
 	cur         *attempt
 	failPending bool
@@ -601,6 +604,28 @@ func body(c *kernel.Ctx) {
 		reorgs = 1 + verifrt.Intn("cfg", 3)
 	}
 	builder := verifrt.Intn("cfg", 4) == 3
+	// alpha feature flags of the scheduler (process-global: set explicitly in every run). fetchMode: bit 0 =
+	// fetch_att_on_block, bit 1 = fetch_att_on_block_with_delay (head events then cause early fetch-only calls and
+	// the attester duty waits on another code path); reorgDuties = sse_reorg_duties (a reorg event drops the
+	// resolved epoch's duties, which are resolved again at the next slot)
+	fetchMode := 0
+	if verifrt.Intn("cfg", 3) == 2 {
+		fetchMode = 1 + verifrt.Intn("cfg", 3)
+	}
+	reorgDuties := verifrt.Intn("cfg", 3) == 2
+	setFlag := func(f featureset.Feature, on bool) {
+		if on {
+			featureset.EnableForT(c.T, f)
+		} else {
+			featureset.DisableForT(c.T, f)
+		}
+	}
+	setFlag(featureset.FetchAttOnBlock, fetchMode&1 != 0)
+	setFlag(featureset.FetchAttOnBlockWithDelay, fetchMode&2 != 0)
+	setFlag(featureset.SSEReorgDuties, reorgDuties)
+	if reorgDuties && reorgs == 0 && verifrt.Intn("cfg", 2) == 1 {
+		reorgs = 1 + verifrt.Intn("cfg", 3)
+	}
 	runSlots := uint64(nEpochs) * w.spe
 	w.faultEnd = w.t0.Add(time.Duration(runSlots) * w.slotDur)
 	maxBlock := w.slotDur * 25 / 10 // longest slow call / stall
@@ -610,8 +635,8 @@ func body(c *kernel.Ctx) {
 	for _, v := range w.cluster {
 		lc = append(lc, fmt.Sprintf("%s[v%d known=%v act=%d exit=%d]", v.name, v.vidx, v.known, int64(v.act), int64(v.exit)))
 	}
-	verifrt.Note("cfg spe=%d slot=%v start=e%d+%d+%v epochs=%d period=%d extras=%v lenient=%v faults=%d stalls=%d reorgs=%d builder=%v cluster=%s others=%d",
-		w.spe, w.slotDur, startEpoch, startInEpoch, intoSlot, nEpochs, w.period, w.extras, w.lenient, w.faultLvl, stalls, reorgs, builder, strings.Join(lc, " "), nOther)
+	verifrt.Note("cfg spe=%d slot=%v start=e%d+%d+%v epochs=%d period=%d extras=%v lenient=%v faults=%d stalls=%d reorgs=%d builder=%v fetch_on_block=%d sse_reorg_duties=%v cluster=%s others=%d",
+		w.spe, w.slotDur, startEpoch, startInEpoch, intoSlot, nEpochs, w.period, w.extras, w.lenient, w.faultLvl, stalls, reorgs, builder, fetchMode, reorgDuties, strings.Join(lc, " "), nOther)
 
 	ctx, cancel := context.WithCancel(context.Background())
 	defer cancel()
@@ -680,6 +705,27 @@ func body(c *kernel.Ctx) {
 		verifrt.Note("TICK slot %d (e%d+%d) at slot+%v", slot.Slot, slot.Slot/w.spe, slot.Slot%w.spe, now.Sub(w.slotStart(slot.Slot)))
 		return nil
 	})
+	if verifrt.Intn("cfg", 2) == 1 {
+		// another duty subscriber, registered first, that treats the set it is handed as its own: it overwrites
+		// what is reachable from it in place and empties it. The scheduler's stored definitions, what the
+		// observer below receives and what later slots carry must be unaffected.
+		sched.SubscribeDuties(func(_ context.Context, _ core.Duty, set core.DutyDefinitionSet) error {
+			verifrt.Probe("mutating-subscriber-ran")
+			var pks []core.PubKey
+			for pk := range set {
+				pks = append(pks, pk)
+			}
+			for _, pk := range pks {
+				if sd, ok := set[pk].(core.SyncCommitteeDefinition); ok {
+					for i := range sd.ValidatorSyncCommitteeIndices {
+						sd.ValidatorSyncCommitteeIndices[i] = 9999
+					}
+				}
+				delete(set, pk)
+			}
+			return nil
+		})
+	}
 	sched.SubscribeDuties(func(_ context.Context, duty core.Duty, set core.DutyDefinitionSet) error {
 		now := time.Now()
 		rec := trigRec{duty: duty, t: now, defs: map[core.PubKey]core.DutyDefinition{}}
@@ -700,6 +746,50 @@ func body(c *kernel.Ctx) {
 		c.Progress()
 		return nil
 	})
+
+	// --- the fetcher's fetch-only entry point (early attestation data fetch on head events) and the SSE head events ---
+	sched.RegisterFetcherFetchOnly(func(_ context.Context, duty core.Duty, set core.DutyDefinitionSet, _ string, _ eth2p0.Root) error {
+		now := time.Now()
+		rec := trigRec{duty: duty, t: now, defs: map[core.PubKey]core.DutyDefinition{}}
+		for pk, d := range set {
+			rec.defs[pk] = d
+		}
+		w.mu.Lock()
+		w.fetches = append(w.fetches, rec)
+		w.mu.Unlock()
+		verifrt.Probe("fetch-only-call")
+		verifrt.Note("FETCH-ONLY %d/%s (%d defs) at slot+%v", duty.Slot, duty.Type, len(set), now.Sub(w.slotStart(duty.Slot)))
+		verifrt.Sleep(time.Duration(verifrt.Intn("w", 900)) * time.Millisecond)
+		if verifrt.Intn("w", 5) == 4 {
+			return errors.New("beacon stub: early attestation data fetch failed")
+		}
+		return nil
+	})
+	if fetchMode != 0 || verifrt.Intn("cfg", 4) == 3 { // head events also arrive when the flags are off
+		verifrt.Go(func() {
+			for time.Now().Before(w.faultEnd) {
+				s := w.headSlot()
+				into := w.slotDur * time.Duration(verifrt.Intn("w", 100)) / 100
+				if d := time.Until(w.slotStart(s).Add(into)); d > 0 {
+					verifrt.Sleep(d)
+				}
+				switch k := verifrt.Intn("w", 8); {
+				case k == 7: // no block in this slot
+				case k == 6 && s > 0: // a late head event for the previous slot
+					sched.HandleHeadEvent(ctx, eth2p0.Slot(s-1), eth2p0.Root{byte(s)}, "bn0")
+				case k == 5: // two beacon nodes report the same head
+					sched.HandleHeadEvent(ctx, eth2p0.Slot(s), eth2p0.Root{byte(s)}, "bn0")
+					sched.HandleHeadEvent(ctx, eth2p0.Slot(s), eth2p0.Root{byte(s)}, "bn1")
+				default:
+					sched.HandleHeadEvent(ctx, eth2p0.Slot(s), eth2p0.Root{byte(s)}, "bn0")
+				}
+				verifrt.Probe("head-event")
+				if d := time.Until(w.slotStart(s + 1)); d > 0 {
+					verifrt.Sleep(d)
+				}
+			}
+		})
+	}
 
 	var runErr error
 	running := true
@@ -737,6 +827,12 @@ func body(c *kernel.Ctx) {
 				}
 				verifrt.Probe("reorg-event")
 				verifrt.Note("REORG event epoch %d", e)
+				if reorgDuties {
+					verifrt.Probe("reorg-event-with-sse-reorg-duties")
+					w.mu.Lock()
+					w.trims = append(w.trims, time.Now())
+					w.mu.Unlock()
+				}
 				sched.HandleChainReorgEvent(ctx, eth2p0.Epoch(e))
 				dutiesCache.InvalidateCache(ctx, eth2p0.Epoch(e))
 			}
@@ -755,6 +851,8 @@ func body(c *kernel.Ctx) {
 	c.Set("epochs", nEpochs)
 	c.Set("cluster", nCluster)
 	c.Set("fault_level", w.faultLvl)
+	c.Set("fetch_att_on_block_mode", fetchMode)
+	c.Set("sse_reorg_duties", reorgDuties)
 	c.Set("ticks", len(w.ticks))
 	c.Set("triggers", len(w.trigs))
 	c.Set("resolutions", len(w.ress))
@@ -903,6 +1001,37 @@ func (w *world) check(end time.Time) {
 		}
 	}
 
+	// (O2') an early fetch-only call (head event) carries an attester duty's definitions, unaltered
+	for _, r := range w.fetches {
+		d := r.duty
+		if d.Type != core.DutyAttester {
+			c.Violate("C15", "definition-set", "fetch-only/underived-duty-type/"+d.Type.String(), "the early fetch was called for duty %s; only attester duties are fetched on head events", where(d))
+			continue
+		}
+		exp := w.expected(d.Type, d.Slot)
+		pks := make([]core.PubKey, 0, len(r.defs))
+		for pk := range r.defs {
+			pks = append(pks, pk)
+		}
+		slices.Sort(pks)
+		for _, pk := range pks {
+			got := r.defs[pk]
+			v := w.byPK[pk]
+			switch {
+			case v == nil || !v.cluster:
+				c.Violate("C15", "definition-set", "fetch-only/non-cluster-validator", "the early fetch for duty %s carries a definition for a validator outside the cluster: %s", where(d), defStr(got))
+			case !v.activeIn(d.Slot / w.spe):
+				c.Violate("C15", "definition-set", "fetch-only/inactive-validator", "the early fetch for duty %s carries a definition for %s, which is not active in epoch %d: %s", where(d), v.name, d.Slot/w.spe, defStr(got))
+			case exp[pk] == nil:
+				c.Violate("C15", "definition-set", "fetch-only/unassigned-slot", "the early fetch for duty %s carries a definition for %s, to which the beacon node assigned no such duty in that slot: %s", where(d), v.name, defStr(got))
+			default:
+				if kind, eq := sameDef(got, exp[pk]); !kind || !eq {
+					c.Violate("C15", "definition-set", "fetch-only/altered-definition", "the early fetch for duty %s carries for %s the definition %s, the beacon node's assignment is %s", where(d), v.name, defStr(got), defStr(exp[pk]))
+				}
+			}
+		}
+	}
+
 	// (O4) completeness
 	seen := map[uint64]time.Time{}
 	var slots []uint64
@@ -954,6 +1083,21 @@ func (w *world) check(end time.Time) {
 					r := &w.ress[i]
 					sn, ok := r.snap[v.vidx]
 					if r.epoch == epoch && r.done.Before(w.slotStart(s)) && ok && (sn.active || sn.actEpoch == epoch) {
+						// with sse_reorg_duties a reorg event drops the resolved duties (the statement says nothing about
+						// reorgs): a resolution counts only if no such event arrived between its beginning (at most the
+						// longest slow call before its end) and the moment the slot's last duty type has been handed to
+						// its goroutine - scheduleSlot walks the duty types one by one and, in the last slot of an epoch,
+						// resolves the next epoch between two of them, which a slow beacon call stretches by up to 2.5 slots
+						voided := false
+						for _, te := range w.trims {
+							if !te.Before(r.done.Add(-w.slotDur*3)) && !te.After(tt.Add(w.slotDur*3)) {
+								voided = true
+							}
+						}
+						if voided {
+							verifrt.Probe("resolution-voided-by-reorg")
+							continue
+						}
 						res = r
 						break
 					}
